@@ -27,7 +27,8 @@ without -O, are fed JSON case specs over pipes.
 
 Sub-checks: expr (trees over every node class), user (generated decorated /
 legacy / mixed user classes, also embedded in built-in nodes), compiled
-(pymbolic.compile).
+(pymbolic.compile), numeric (the library's own legacy node types Polynomial,
+Rational and the hashable MultiVector).
 """
 from __future__ import annotations
 
@@ -53,8 +54,11 @@ RULE = ("Hypothesis-generated trees over every node class in pymbolic.primitives
         "prefixes and scopes, keyword names, derivative / substitution variable names, "
         "comparison operators, non-ASCII names; deprecated constructor spellings), "
         "instances of generated user classes (decorated, legacy init-args, mixed, depth "
-        "1-3; bare or embedded in Sum / Call / CallWithKwargs / Subscript) and compiled "
-        "expressions; x a generated list of pre-pickle operations (hash, ==, dict "
+        "1-3; bare or embedded in Sum / Call / CallWithKwargs / Subscript), compiled "
+        "expressions (random listed-variable order, 2-4 argument environments) and the "
+        "library's legacy number-like nodes (sparse Polynomial with symbolic coefficients, "
+        "Rational of ints / integer polynomials, MultiVector over 1-3 dimensions with the "
+        "shared or an own Space); x a generated list of pre-pickle operations (hash, ==, dict "
         "insertion, str, repr, persistent digest, pickle-and-discard, pickle round trip, "
         "copy) x container nesting (bare, tuple, list, dict value, dict key, set, same "
         "object twice, nested) x pickle protocol 0-5 x order of the consumer's "
@@ -63,7 +67,8 @@ RULE = ("Hypothesis-generated trees over every node class in pymbolic.primitives
         "differ in seed only, -O only, or both). Non-trivial = the object contains a "
         "string-bearing node, its root carried a cached hash in the producer when it was "
         "pickled, and the two processes hash it differently (compiled: >= 2 arguments "
-        "with a listed order); distinct by sha1 of the case spec.")
+        "with a listed order; numeric: symbolic part and >= 1 pre-operation); distinct by "
+        "sha1 of the case spec.")
 ASSUMPTIONS = [
     "digest equality is demanded for strictly structurally equal objects (same spec, same "
     "constant types) and for twins differing only in keyword insertion order / dict "
@@ -72,11 +77,19 @@ ASSUMPTIONS = [
     "a fixed small set of (hash seed, -O) worker pairs per shard is explored, not all",
     "worker trouble (start-up, time-out, protocol) is a harness error, never a violation",
     "printing (str) is only performed as a pre-operation; its result is not judged here",
+    "a cached hash (_hash_value, memoized __hash__) found in an unpickled node before anything "
+    "hashed it in the consumer is taken as leaked process-local state, the mechanism the "
+    "property names, even where the value happens to be numerically right",
+    "Polynomial, Rational and MultiVector count as node types of this property (Expression "
+    "subclasses with mapper methods / documented as pickleable); hash obligations apply to "
+    "the hashable one (MultiVector) only",
 ]
 HEALTH = {"hash-before-pickle": 0.45, "string-bearing": 0.6, "hash-seed-sensitive": 0.45,
           "kwcall>=2": 0.03, "opt-differs": 0.3, "seed-differs": 0.5,
           "digest:walk": 0.3, "digest:kb": 0.3, "user:legacy": 0.03,
-          "compiled:listed-unsorted": 0.01, "pre:roundtrip": 0.03, "nest:dictkey": 0.03}
+          "compiled:listed-unsorted": 0.01, "pre:roundtrip": 0.03, "nest:dictkey": 0.03,
+          "kind:compiled": 0.04, "kind:numeric": 0.02, "user": 0.1,
+          "numeric:MultiVector": 0.008, "numeric:Polynomial": 0.005}
 CASE_TIMEOUT_S = 90
 TIMEOUT_IS_FAIL = False
 BUDGET_S = {"quick": 300, "thorough": 3000}
@@ -291,6 +304,9 @@ def _validate(spec, want):
             if lv["kind"] == "D" and seen_l:
                 raise HarnessError("decorated below legacy is not a supported shape")
             seen_l = seen_l or lv["kind"] == "L"
+    if kind == "numeric":
+        if spec.get("nest") in ("dictkey", "set"):
+            raise HarnessError("number types are not used as keys here")
     if kind == "compiled":
         c = spec["compiled"]
         if not isinstance(c, dict) or not isinstance(c.get("listed"), list) \
@@ -303,7 +319,10 @@ def _validate(spec, want):
         for env in c["envs"]:
             if not isinstance(env, dict) or any(n not in env for n in order):
                 raise HarnessError("environment does not bind every argument")
-    return kind, _cfg(spec.get("producer")), _cfg(spec.get("consumer"))
+    pc, cc = _cfg(spec.get("producer")), _cfg(spec.get("consumer"))
+    if pc == cc:
+        raise HarnessError("producer and consumer must differ in PYTHONHASHSEED or -O")
+    return kind, pc, cc
 
 
 STRING_TAGS = {"Var", "Variable", "Lookup", "DotWildcard", "StarWildcard", "Comparison",
@@ -314,7 +333,8 @@ STRING_TAGS = {"Var", "Variable", "Lookup", "DotWildcard", "StarWildcard", "Comp
 def _string_bearing(spec, kind):
     if kind == "hier":
         return True     # embeddings add variables; names/fields hold strings or trees
-    ex = spec["expr"] if kind == "expr" else spec["compiled"]["expr"]
+    ex = spec["expr"] if kind == "expr" else (
+        spec["numeric"] if kind == "numeric" else spec["compiled"]["expr"])
     return any(s[0] in STRING_TAGS for s in subspecs(ex))
 
 
@@ -384,6 +404,8 @@ def _check(spec, want):
         res.label("user", "user-shape:" + shape, f"user-embed:{spec.get('embed')}")
         if "L" in shape:
             res.label("user:legacy")
+    elif kind == "numeric":
+        res.label("numeric:" + str(spec["numeric"][0]))
     for pe in P.get("pre_errors", ()):
         res.fail(f"pre-op-raised:{pe[0]}:{pe[1]}", f"producer pre-operation {pe}")
     if _bad_answer(res, "consumer", C):
@@ -426,8 +448,8 @@ def _check(spec, want):
         return res
     if C.get("stale"):
         res.fail("stale-hash-after-unpickle",
-                 where + f"unpickled nodes carry a cached _hash_value before anything "
-                 f"hashed them: {C['stale']}")
+                 where + f"unpickled nodes carry a cached hash (_hash_value / memoized "
+                 f"__hash__) before anything hashed them: {C['stale']}")
     res.compared()
     if C.get("shape_equal") is False:
         res.fail("unpickled-instance-dict-differs",
@@ -495,7 +517,9 @@ def _check(spec, want):
             elif kw[0] == "raised":
                 res.fail(f"digest-raised:{ch}:{kw[1]}", where + f"kw twin: {kw}")
     res.nontrivial = bool(strings and P.get("hashed") and P.get("hash") != C.get("hash_local"))
-    res.sample = {"case": repr(spec.get("expr", spec.get("hier")))[:260],
+    if kind == "numeric":
+        res.nontrivial = bool(strings and spec["pre_ops"])
+    res.sample = {"case": repr(spec.get("expr", spec.get("hier", spec.get("numeric"))))[:260],
                   "pre_ops": spec["pre_ops"], "nest": spec.get("nest"),
                   "protocol": spec["protocol"], "producer": list(pc), "consumer": list(cc),
                   "hashes (producer, consumer)": [P.get("hash"), C.get("hash_local")]}
@@ -514,7 +538,12 @@ def check_compiled(spec):
     return _check(spec, "compiled")
 
 
-CHECKS = {"expr": check_expr, "user": check_user, "compiled": check_compiled}
+def check_numeric(spec):
+    return _check(spec, "numeric")
+
+
+CHECKS = {"expr": check_expr, "user": check_user, "compiled": check_compiled,
+          "numeric": check_numeric}
 
 # }}}
 
@@ -528,7 +557,46 @@ def _known_f20(sub, spec, fail):
             and X.n_kw_reorderable(spec.get("expr")) >= 1)
 
 
-KNOWN = {"F20": _known_f20}
+def _numeric_tags(spec):
+    out = set()
+
+    def rec(x):
+        if isinstance(x, list):
+            if x and x[0] in ("Polynomial", "Rational", "MultiVector"):
+                out.add(x[0])
+            for c in x:
+                rec(c)
+    rec(spec.get("numeric"))
+    return out
+
+
+def _known_legacy_unpickle(sub, spec, fail):
+    """Polynomial and Rational inherit Expression.__setstate__, which needs
+    init_arg_names; neither class defines it: they pickle but never unpickle
+    (copy.copy fails the same way)."""
+    return (sub == "numeric" and _numeric_tags(spec) & {"Polynomial", "Rational"}
+            and "MultiVector" not in _numeric_tags(spec)
+            and fail.kind.endswith("NotImplementedError@primitives.py:init_arg_names"))
+
+
+def _known_mv_memo(sub, spec, fail):
+    """MultiVector.__hash__ is memoized in the instance dict, which is the
+    pickled state."""
+    return (sub == "numeric" and _numeric_tags(spec) == {"MultiVector"}
+            and fail.kind == "stale-hash-after-unpickle")
+
+
+def _known_mv_space(sub, spec, fail):
+    """MultiVector.__hash__ mixes in hash(space); Space has identity hash while
+    MultiVector.__eq__ ignores the space: an unpickled multivector (fresh Space
+    object) is == the local one and hashes differently."""
+    return (sub == "numeric" and _numeric_tags(spec) == {"MultiVector"}
+            and fail.kind in ("unpickled-hash-differs-from-local",
+                              "unpickled-not-found-in-dict"))
+
+
+KNOWN = {"F20": _known_f20, "F-C17-legacy-unpickle": _known_legacy_unpickle,
+         "F-C17-mv-memo": _known_mv_memo, "F-C17-mv-space": _known_mv_space}
 
 # }}}
 
@@ -678,6 +746,41 @@ def compiled_object(draw):
     return {"compiled": {"expr": ex, "listed": listed, "envs": envs}}
 
 
+@st.composite
+def numeric_object(draw):
+    nm = lambda: draw(st.sampled_from(STR_NAMES))  # noqa: E731
+
+    def coeff():
+        c = draw(st.integers(0, 3))
+        if c == 0:
+            return ["Var", nm()]
+        if c == 1:
+            return ["Sum", [["Var", nm()], ["Const", "int", draw(st.integers(1, 5))]]]
+        return ["Const", "int", draw(st.sampled_from((1, 2, 3, -1, -4, 7)))]
+
+    def poly():
+        exps = sorted(draw(st.lists(st.integers(0, 6), min_size=1, max_size=4, unique=True)))
+        return ["Polynomial", ["Var", nm()], [[e, coeff()] for e in exps]]
+    c = draw(st.integers(0, 5))
+    if c <= 1:
+        return {"numeric": poly()}
+    if c == 2:
+        ints = st.sampled_from((1, 2, 3, 5, -7, 12))
+        if draw(st.booleans()):
+            return {"numeric": ["Rational", ["Const", "int", draw(ints)],
+                                ["Const", "int", draw(ints)]]}
+
+        def ipoly():
+            q = poly()
+            return [q[0], q[1], [[e, ["Const", "int", draw(st.sampled_from((1, 2, -3, 5)))]]
+                                 for e, _ in q[2]]]
+        return {"numeric": ["Rational", ipoly(), ipoly()]}
+    dims = draw(st.integers(1, 3))
+    bits = draw(st.lists(st.integers(0, 2 ** dims - 1), min_size=1, max_size=4, unique=True))
+    return {"numeric": ["MultiVector", [[b, coeff()] for b in bits], dims,
+                        draw(st.sampled_from((False, False, True)))]}
+
+
 def generate(ctx):
     cfgs = shard_configs(ctx.seed, ctx.shard)
     quick = ctx.tier == "quick"
@@ -700,13 +803,24 @@ def generate(ctx):
     expr_obj = st.builds(lambda e, sh: {"expr": e, "shared": sh}, expr_tree(),
                          st.sampled_from((False, False, True)))
     try:
+        for c in cfgs:       # evidence: what the interpreters really run with
+            h = _worker(_cfg(c)).hello
+            ctx.extra[f"worker seed={h['hashseed']} -O={h['opt']} "
+                      f"frozen-dataclasses={h['frozen']}"] += 1
         ctx.run_given(cases(expr_obj), body("expr"), ctx.n(6000, 120000))
         ctx.run_given(cases(user_object()), body("user"), ctx.n(2400, 48000))
         ctx.run_given(cases(compiled_object(), True), body("compiled"), ctx.n(1200, 24000))
+        ctx.run_given(cases(numeric_object(), True), body("numeric"), ctx.n(800, 16000))
     finally:
         shutdown_workers()
 
 # }}}
+
+
+def finalize(m, cov):
+    cov["worker_interpreters"] = {k: v for k, v in sorted(m["extra"].items())
+                                  if k.startswith("worker ")}
+    cov["digest_channels"] = list(X.CHANNELS)
 
 
 MANIFEST = {
@@ -724,7 +838,8 @@ MANIFEST = {
              "digest equality producer/consumer, locally built/unpickled, rebuilt twin and "
              "keyword-reordered twin; compiled expressions must compute the same values "
              "unpickled, compiled in the consumer and in the producer. Covers every node "
-             "class, generated user classes (decorated, legacy, mixed) and pymbolic.compile."),
+             "class, generated user classes (decorated, legacy, mixed), pymbolic.compile and "
+             "the library's own legacy nodes Polynomial, Rational and MultiVector."),
     "note": ("Trusted: pbt/xproc_worker.py (observations only; its field-wise comparator is "
              "independent of the generated __eq__), pbt/spec.py builders, pbt/usertypes.py "
              "(same spec -> same class name in every process). Explores four interpreter "
